@@ -175,7 +175,8 @@ def verifier_model(chk, model, hscan, cases, meta, out, corder):
     for n, (cid, si, bl) in enumerate(aimed):
         if not bl:
             src = meta[cid][0]
-            chk.violation("cert:sound", "the key certificate fails for string %d of %s and no aimed buffer could be built" % (si, src[:160]),
+            st["sound_cert_false_xor_not_reproduced"] = st.get("sound_cert_false_xor_not_reproduced", 0) + 1
+            chk.violation("xor-key-outside-range", "the key certificate fails for string %d of %s (no aimed buffer could be built)" % (si, src[:160]),
                           {"rule": src, "string_index": si}, found_input=False)
             continue
         src, strings, _ = meta[cid]
@@ -236,7 +237,11 @@ def verifier_model(chk, model, hscan, cases, meta, out, corder):
                 elif set(e[0] for e in impl3) != spec_offs:
                     chk.violation("missed:aimed", "aimed buffer: implementation offsets %s, documented %s" % ([e[0] for e in impl3], sorted(spec_offs)), replay)
             if not shown:
-                chk.violation("cert:sound", "the key certificate fails for string %d of %s but none of the aimed buffers shows a wrong match" % (si, src[:160]),
+                # the certificate fails for the reason of the known finding (the verifier would accept a rendering / key that this atom does not
+                # justify) but other tests of the verifier (fullword, the bytes of the atom itself) keep these particular buffers from matching
+                st["sound_cert_false_xor_not_reproduced"] = st.get("sound_cert_false_xor_not_reproduced", 0) + 1
+                chk.violation("xor-key-outside-range", "xor text string %r %s: the key certificate of scan_text_sound fails (the verifier recomputes the key / "
+                              "tries the ascii form); the aimed buffers do not show a wrong match for this string" % (text, rulegen.mods_to_words(m)),
                               {"rule": src, "string_index": si, "aimed": [hx(b[0]) for b in bl]}, found_input=False)
     return st
 
@@ -384,8 +389,18 @@ def run(chk):
         ns = r.range(1, 4)
         strings = []
         decls = []
+        related = r.chance(1, 3)
+        base_text = rulegen.rand_text(r, 3, 6)
         for j in range(ns):
             text = rulegen.rand_text(r, 1, 10 if r.chance(4, 5) else 24)
+            if related and j > 0:
+                # strings sharing prefixes, suffixes and infixes with the first one ("date", "data", "ate"): their atoms share automaton states,
+                # failure links and match lists
+                k = r.below(5)
+                text = [base_text[:-1] + bytes([r.choice(b"aeiou")]), base_text[1:], base_text[:max(1, len(base_text) // 2)] + bytes([r.choice(b"xyz")]),
+                        bytes([r.choice(b"xyz")]) + base_text[1:], base_text[-3:]][k]
+            elif related:
+                text = base_text
             m = rulegen.rand_text_mods(r)
             m["private"] = False
             strings.append((text, m))
@@ -443,7 +458,24 @@ def run(chk):
             else:
                 chk.violation("cert:cover", "the atoms stored in the compiled image for string %d of %s do not cover the string (cover_ok false): %s"
                               % (si, src[:160], res[:300]), {"rule": src, "string_index": si, "model": res[:2000]}, found_input=False)
-    chk.note(images_checked=len(corder), cert_checked=ncert, cert_true=cert_true)
+    # the automaton certificate ac_cert (premise of the scan theorems) on the smallest images (the check is quadratic in the number of
+    # states: xor strings with wide key ranges have thousands)
+    imgs = []
+    for cid in corder:
+        im = [l for l in out.get(cid, []) if l.startswith("save rc=0 image=")]
+        if im:
+            imgs.append((len(im[0]), cid, im[0].split("image=")[1]))
+    imgs.sort()
+    nac = 25 if tier == "quick" else 150
+    ares, _ = vlib.run_lines(model, ["accert " + x[2] for x in imgs[:nac]], timeout=3000)
+    ac_true = 0
+    for (ln, cid, im), ar in zip(imgs[:nac], ares):
+        if ar.startswith("cert=true"):
+            ac_true += 1
+        else:
+            chk.violation("cert:ac", "the stored automaton of %s does not pass ac_cert: %s" % (meta[cid][0][:160], ar[:200]),
+                          {"rule": meta[cid][0], "model": ar[:500]}, found_input=False)
+    chk.note(images_checked=len(corder), cert_checked=ncert, cert_true=cert_true, ac_cert_checked=min(nac, len(imgs)), ac_cert_true=ac_true)
     nontriv = set()
     agree = 0
     total = 0
